@@ -6,7 +6,7 @@ pub static PROP: Prop = Prop {
     id: "C07",
     title: "Array primitives of the Vec backend meet their element-wise contract",
     check,
-    max_tape: (70, 110),
+    max_tape: (200, 260),
     cases: (400_000, 6_000_000),
     both_profiles: false,
     rule: "arrays over usize and i16 of length 0..12 (thorough 0..20), index arrays within bounds, all range forms inside bounds, edge lists with self loops and parallel edges over n <= 10 nodes; one primitive group per case, each compared with a scalar reference loop (open choices accepted in any conforming form); non-trivial = length >= 2 (components: >= 2 nodes, >= 2 components, >= 1 edge); distinct = hash of the generated data",
@@ -15,6 +15,7 @@ pub static PROP: Prop = Prop {
         "the harness's own AdvKind backend is run through the same contract in every configuration as a self-check (a failure there is a harness error, not a violation)",
     ],
     fixed: None,
+    scale: Some(super::scale::c07),
 };
 
 mod v {
